@@ -608,10 +608,13 @@ def oracle_run(front, items, limit=CASE_LIMIT_S, stack=STACK_MIB, workers=None):
                 rc, so = p.returncode, p.stdout.decode(errors="replace")
             except subprocess.TimeoutExpired as ex:
                 rc, so = 124, (ex.stdout or b"").decode(errors="replace")
-            begun, done, timed, stage = None, set(), None, "?"
+            begun, done, timed, stage, verdicts = None, set(), None, "?", {}
             for line in so.split("\n"):
                 if line.startswith("B "):
-                    begun = int(line[2:])
+                    begun = int(line[2:]); verdicts = {}
+                elif line.startswith("S verdict "):
+                    _, _, vs, vo = line.split(" ", 3)
+                    verdicts[vs] = vo.strip()
                 elif line.startswith("S "):
                     stage = line[2:].strip()
                 elif line.startswith("R "):
@@ -622,11 +625,11 @@ def oracle_run(front, items, limit=CASE_LIMIT_S, stack=STACK_MIB, workers=None):
                     timed = int(line[2:])
             ids = [i for i, _ in todo]
             if timed is not None and timed not in done:
-                out[timed] = {"timeout": True, "stage": stage}
+                out[timed] = {"timeout": True, "stage": stage, "verdicts": dict(verdicts)}
                 shared["timeouts"] += 1
                 todo = todo[ids.index(timed) + 1:]
             elif begun is not None and begun not in done:
-                out[begun] = {"crash": f"worker died (exit status {rc}) in {stage}", "stage": stage}
+                out[begun] = {"crash": f"worker died (exit status {rc}) in {stage}", "stage": stage, "verdicts": dict(verdicts)}
                 todo = todo[ids.index(begun) + 1:]
             elif len(done) < len(todo):
                 # died between cases / before the first: retry the remainder once, else give up on it
@@ -754,6 +757,16 @@ def run(ck):
         else:
             oracle_bad.append((origin, t, what, detail))
 
+    def macro_stage_divergence(t, r, r2):
+        v = r.get("verdicts", {})
+        if not (r.get("stage") in ("emit_bytecode", "emit_wasm") and v.get("parse_to_expr") == "V" and v.get("typecheck") == "V"):
+            return False
+        if not re.search(r"#stage\(\s*macro|`|\$|!\s*\(", t):
+            return False
+        if "timeout" in r:
+            return True
+        return ("crash" in r2 or "timeout" in r2) and r2.get("stage") == r.get("stage")     # not a finite recursion depth
+
     def oracle_phase(origin, texts, limit=CASE_LIMIT_S, stack=STACK_MIB):
         t0 = time.time()
         items = list(enumerate(texts))
@@ -776,6 +789,12 @@ def run(ck):
                 continue
             if "skipped" in r:
                 ostats["oracle_cases"] -= 1
+                continue
+            if ("timeout" in r or "crash" in r) and macro_stage_divergence(t, r, big.get(i, {})):
+                # the text has neither syntax nor type errors and it contains macro-stage code, which the compile entry points
+                # EXECUTE: a user program that recurses for ever at compile time is not answered by anything (Turing-complete
+                # macro language) and C04 claims nothing about it ("a text that has syntax or type errors")
+                ostats["error_free_macro_stage_divergence_outside_claim"] = ostats.get("error_free_macro_stage_divergence_outside_claim", 0) + 1
                 continue
             if "timeout" in r:
                 oracle_bad.append((origin, t, "timeout", f"{r.get('stage', '?')} did not return within {limit} s"))
